@@ -182,8 +182,11 @@ def conditions(tier):
     conds.append(Cond('hist_ext', P, two_pre(BS + 'begin{X}' + BS + 'i[?]?' + BS + 'end{X}', BS + 'i[?]?' + BS + 'y{?}'),
                       'body_hist_ext(s1, s2)', timeout=T, cost=2, twin=False,
                       smoke=[dict(s1=BS + 'begin{X}' + BS + 'i[a]b' + BS + 'end{X}', s2=BS + 'i[a]b' + BS + 'y{c}')]))
-    conds.append(Cond('hist_other_ctx', P, two_pre(BS + 'k[?]?', BS + 'b?[?]{?}'), 'body_hist_other_ctx(s1, s2)', timeout=T,
-                      cost=2, twin=False, smoke=[dict(s1=BS + 'k[a]b', s2=BS + 'b [a]{b}')]))
+    for i, s2c in enumerate([BS + 'b [a]{b}', BS + 'e* [a] {b}', BS + 'f{a} [b]*']):
+        conds.append(Cond('hist_other_ctx_%d' % i, 's1: str', skel_pre(BS + 'k[?]?', 's1'), 'body_hist_other_ctx(s1, %r)' % s2c,
+                          timeout=T, cost=2, twin=False, smoke=[dict(s1=BS + 'k[a]b')],
+                          descr='first parse %r with an unrelated context using get_standard_argument_parser with options, '
+                                'then %r' % (BS + 'k[?]?', s2c)))
     for nm, a, b in [('d_verb', BS + 'verb|?', BS + 'verb|?|?'), ('d_item', BS + 'item[?', BS + 'item[?] ?'),
                      ('d_frac', BS + 'frac?', BS + 'frac??'), ('d_lst', BS + 'begin{lstlisting}[?', BS + 'begin{lstlisting}[?]x' + BS + 'end{lstlisting}')]:
         conds.append(Cond('default_' + nm, P, two_pre(a, b, quick), 'body_default_ctx(s1, s2)', timeout=T, cost=2, twin=False,
